@@ -495,7 +495,7 @@ pub fn adapt_ops() -> Vec<u8> {
 pub enum AObs<X> { Item(X), Nothing, Count(usize) }
 
 /// Apply std adaptor `op` to an iterator. The same function runs on the library's iterator and on std's (`vec::Drain`, slice iter).
-pub fn adapt<I: DoubleEndedIterator + ExactSizeIterator, X>(it: &mut I, op: u8, mut f: impl FnMut(I::Item) -> X) -> Vec<AObs<X>> {
+pub fn adapt<I: DoubleEndedIterator + ExactSizeIterator, X>(mut it: I, owning: bool, op: u8, mut f: impl FnMut(I::Item) -> X) -> Vec<AObs<X>> {
     let (pre, which, n) = ((op >> 6) as usize, (op >> 3) & 7, (op & 7) as usize);
     let mut out = { let _w = elem::WindowOff::new(); Vec::with_capacity(32) };
     let mut one = |o: Option<I::Item>, out: &mut Vec<AObs<X>>| match o { Some(x) => out.push(AObs::Item(f(x))), None => out.push(AObs::Nothing) };
@@ -514,10 +514,14 @@ pub fn adapt<I: DoubleEndedIterator + ExactSizeIterator, X>(it: &mut I, op: u8, 
             2 => { for x in it.by_ref().rev().take(8) { one(Some(x), &mut out); } }
             3 => { let x = it.nth(1); one(x, &mut out); let y = it.nth_back(0); one(y, &mut out); }
             4 => { let x = it.nth_back(1); one(x, &mut out); let y = it.nth(0); one(y, &mut out); }
-            // internal iteration (an overridden fold / rfold / for_each must visit the same items in the same order)
-            5 => { let mut items = { let _w = elem::WindowOff::new(); Vec::with_capacity(256) }; it.by_ref().fold((), |(), x| items.push(x)); for x in items { one(Some(x), &mut out); } }
-            6 => { let mut items = { let _w = elem::WindowOff::new(); Vec::with_capacity(256) }; it.by_ref().rfold((), |(), x| items.push(x)); for x in items { one(Some(x), &mut out); } }
-            _ => { let mut items = { let _w = elem::WindowOff::new(); Vec::with_capacity(256) }; it.by_ref().rev().for_each(|x| items.push(x)); for x in items { one(Some(x), &mut out); } }
+            // consuming methods called on the iterator BY VALUE (through `by_ref()` std never reaches an override of `fold`, `rfold`,
+            // `count` or `last`): nothing is left to inspect afterwards
+            // (every item is consumed INSIDE the closure, while the iterator is alive: a drained element kept beyond its draining
+            // iterator is the C16 known finding "outlive-iterator", not something these checks may trip over)
+            5 => { let mut obs = { let _w = elem::WindowOff::new(); Vec::with_capacity(256) }; it.fold((), |(), x| obs.push(f(x))); for o in obs { out.push(AObs::Item(o)); } return out; }
+            6 => { let mut obs = { let _w = elem::WindowOff::new(); Vec::with_capacity(256) }; it.rfold((), |(), x| obs.push(f(x))); for o in obs { out.push(AObs::Item(o)); } return out; }
+            // (by-value `last()` of an OWNING iterator hands out an item that has outlived its iterator: same known finding, not called)
+            _ => { if pre == 1 && !owning { let x = it.last(); one(x, &mut out); } else { let c = it.count(); out.push(AObs::Count(c)); } return out; }
         },
     }
     // what is left: reported length, then (bounded) the remaining items from both ends, then fusedness
@@ -553,14 +557,14 @@ impl<T: Elem + SatisfyTraits<Tr>, M: MX, Tr: TrX + ?Sized> World<T, M, Tr> {
         let id_of = |v: T| { let id = v.id(); let _w = elem::WindowOff::new(); drop(v); id };
         let mut repl_model: Vec<Mv> = Vec::new();
         let r: Result<Vec<AObs<u16>>, Caught> = match (api, splice_rn) {
-            (Api::Erased, None) => guarded(|| { let mut d = va.drain(a..b); let o = adapt(&mut d, op, |e| id_of(e.downcast::<T>().unwrap())); drop(d); o }),
-            (Api::Typed, None) => guarded(|| { let mut t = va.downcast_mut::<T>().unwrap(); let mut d = t.drain(a..b); let o = adapt(&mut d, op, id_of); drop(d); o }),
+            (Api::Erased, None) => guarded(|| { let d = va.drain(a..b); adapt(d, true, op, |e| id_of(e.downcast::<T>().unwrap())) }),
+            (Api::Typed, None) => guarded(|| { let mut t = va.downcast_mut::<T>().unwrap(); let d = t.drain(a..b); adapt(d, true, op, id_of) }),
             (Api::Erased, Some(rn)) => { let (it, ids) = ReplT::<T>::new(rn, 0); repl_model = ids;
-                guarded(|| { let mut d = va.splice(a..b, it.map(AnyValueWrapper::new)); let o = adapt(&mut d, op, |e| id_of(e.downcast::<T>().unwrap())); drop(d); o }) }
+                guarded(|| { let d = va.splice(a..b, it.map(AnyValueWrapper::new)); adapt(d, true, op, |e| id_of(e.downcast::<T>().unwrap())) }) }
             (Api::Typed, Some(rn)) => { let (it, ids) = ReplT::<T>::new(rn, 0); repl_model = ids;
-                guarded(|| { let mut t = va.downcast_mut::<T>().unwrap(); let mut d = t.splice(a..b, it); let o = adapt(&mut d, op, id_of); drop(d); o }) }
+                guarded(|| { let mut t = va.downcast_mut::<T>().unwrap(); let d = t.splice(a..b, it); adapt(d, true, op, id_of) }) }
         };
-        let model = { let mut d = self.ma.splice(a..b, repl_model.iter().cloned()); let o = adapt(&mut d, op, |m| m); drop(d); o };
+        let model = { let d = self.ma.splice(a..b, repl_model.iter().cloned()); adapt(d, true, op, |m| m) };
         match r {
             Err(Caught::Injected) => out.faulted = true,
             Err(Caught::Panic(m)) => { out.fail(Class::Iter, "unexpected-panic", format!("adaptor {op} on drain/splice({a}..{b}) panicked: {m}")); out.faulted = true; }
@@ -575,12 +579,12 @@ impl<T: Elem + SatisfyTraits<Tr>, M: MX, Tr: TrX + ?Sized> World<T, M, Tr> {
     pub fn do_iter_adapt(&mut self, api: Api, kind: IterKind, op: u8, out: &mut Out) {
         let va = &mut self.a;
         let r: Result<Vec<AObs<u16>>, Caught> = guarded(|| match (api, kind) {
-            (Api::Erased, IterKind::Iter) | (Api::Erased, IterKind::IntoIterRef) => { let mut it = va.iter(); adapt(&mut it, op, |e| e.downcast_ref::<T>().unwrap().id()) }
-            (Api::Erased, _) => { let mut it = va.iter_mut(); adapt(&mut it, op, |mut e| e.downcast_mut::<T>().unwrap().id()) }
-            (Api::Typed, IterKind::Iter) | (Api::Typed, IterKind::IntoIterRef) => { let t = va.downcast_ref::<T>().unwrap(); let mut it = t.iter(); adapt(&mut it, op, |e| e.id()) }
-            (Api::Typed, _) => { let mut t = va.downcast_mut::<T>().unwrap(); let mut it = t.iter_mut(); adapt(&mut it, op, |e| e.id()) }
+            (Api::Erased, IterKind::Iter) | (Api::Erased, IterKind::IntoIterRef) => { let it = va.iter(); adapt(it, false, op, |e| e.downcast_ref::<T>().unwrap().id()) }
+            (Api::Erased, _) => { let it = va.iter_mut(); adapt(it, false, op, |mut e| e.downcast_mut::<T>().unwrap().id()) }
+            (Api::Typed, IterKind::Iter) | (Api::Typed, IterKind::IntoIterRef) => { let t = va.downcast_ref::<T>().unwrap(); let it = t.iter(); adapt(it, false, op, |e| e.id()) }
+            (Api::Typed, _) => { let mut t = va.downcast_mut::<T>().unwrap(); let it = t.iter_mut(); adapt(it, false, op, |e| e.id()) }
         });
-        let model = { let mut it = self.ma.iter(); adapt(&mut it, op, |m| *m) };
+        let model = { let it = self.ma.iter(); adapt(it, false, op, |m| *m) };
         match r {
             Err(Caught::Injected) => out.faulted = true,
             Err(Caught::Panic(m)) => out.fail(Class::Iter, "unexpected-panic", format!("adaptor {op} on iter panicked: {m}")),
